@@ -70,6 +70,15 @@ inductive FileSrc
   `GetFileContent` hands the reader itself to every attempt and the first attempt closes it
   (`defer content.Close()`), seekable or not -/
   | closer (c : Str) (consumed : Bool)
+  /-- `SetFileUpload` with a caller-written `GetFileContent` that hands out the SAME reader on every
+  call (a caller-owned, already opened file-like object whose `Close` does nothing).  `seekable`:
+  the reader is an `io.ReadSeeker` — `writeMultipartFormFile` rewinds it before a retry reads it
+  (`if r.RetryAttempt > 0 { if rs, ok := content.(io.ReadSeeker) … Seek(0, io.SeekStart) }`); not
+  seekable: every attempt after the one that drained it reads nothing.  The library cannot tell
+  either from a function that makes a fresh reader per call (`bytes`), so neither is flagged
+  `unReplayableUpload`; the second breaks the caller's side of the `GetFileContent` contract
+  (`FileUp.contract`). -/
+  | shared (c : Str) (seekable : Bool) (consumed : Bool)
 deriving DecidableEq, Repr
 
 structure FileUp where
@@ -217,11 +226,14 @@ def fileContent (v : Variant) : FileSrc → Str
   -- nothing can be read from a closed reader (the code even drops the part: the failed rewind
   -- is ignored by writeMultiPart); unreachable in the repaired code, `Do` refuses such a request
   | .closer c consumed => if consumed then [] else c
+  -- the rewind in writeMultipartFormFile: within one `Do`, consumed ⇒ `RetryAttempt > 0`
+  | .shared c seekable consumed => if consumed && !seekable then [] else c
 
 def FileSrc.consume : FileSrc → FileSrc
   | .seeker c _ => .seeker c true
   | .stream c _ => .stream c true
   | .closer c _ => .closer c true
+  | .shared c sk _ => .shared c sk true
   | s => s
 
 /-- `writeMultipartFormFile` sniffs the whole 512-byte buffer `cbuf`, not `cbuf[:size]`: a
@@ -250,9 +262,16 @@ def fileParts (v : Variant) (c : ClientCfg) (files : List FileUp) : List FilePar
 def multipartFields (st : ReqState) : List (Str × Str) :=
   st.ordered ++ st.form.flatMap fun e => e.2.map fun v => (e.1, v)
 
+/-- A payload-forbidden method clears `marshalBody`, `Body` and `GetBody` — but not
+`unReplayableBody`: a `SetBody(io.Reader)` body is never sent, yet the request stays flagged (`Do`
+refuses it up front, the loop does not retry it). -/
+def BodySrc.forbidden : BodySrc → BodySrc
+  | .reader b c => .reader b c
+  | _ => .none
+
 /-- parseRequestBody. -/
 def parseBody (v : Variant) (c : ClientCfg) (ra : Nat) (st : ReqState) : ReqState × WBody :=
-  if payloadForbid c st.method then ({ st with body := .none }, .none)
+  if payloadForbid c st.method then ({ st with body := st.body.forbidden }, .none)
   else
     -- client-level form data is merged first (once), also for multipart requests (/repo c422765)
     let form := if nonEmpty c.form && (!v.formOnce || ra == 0) then addAll st.form c.form else st.form
@@ -340,5 +359,32 @@ def unreplayable (v : Variant) (st : ReqState) : Bool :=
   (match st.body with | .reader _ _ => true | _ => false) ||
   (v.fileRewind && st.files.any fun f =>
     match f.src with | .stream _ _ => true | .closer _ _ => true | _ => false)
+
+/-- The caller's side of the `GetFileContent` contract: every call yields the complete content —
+a fresh reader, or the same one as long as it can be rewound.  (The setters of the library keep
+it by construction or are refused by `unreplayable`.) -/
+def FileUp.contract (f : FileUp) : Bool :=
+  match f.src with
+  | .shared _ false _ => false
+  | _ => true
+
+def ReqState.contract (st : ReqState) : Bool := st.files.all FileUp.contract
+
+/-- What the caller handed over as the content of an upload. -/
+def FileSrc.content : FileSrc → Str
+  | .bytes c => c
+  | .path c => c
+  | .seeker c _ => c
+  | .stream c _ => c
+  | .closer c _ => c
+  | .shared c _ _ => c
+
+/-- No reader of the request has been read yet (the request as the caller built it). -/
+def FileSrc.fresh : FileSrc → Bool
+  | .seeker _ b => !b
+  | .stream _ b => !b
+  | .closer _ b => !b
+  | .shared _ _ b => !b
+  | _ => true
 
 end Req.Attempt
